@@ -34,6 +34,7 @@ func (x *Exec) evalCall(call *ast.CallExpr, st *State) []*Value {
 			if sel.Kind() == types.MethodVal {
 				fn := sel.Obj().(*types.Func)
 				recv := x.evalReceiver(f, sel, fn, st)
+				x.staticRecv = x.typeOf(f.X)
 				return x.callFunc(fn, recv, call, st)
 			}
 			panic(engErr("call through function-typed field %s not supported at %s", f.Sel.Name, x.pos(call)))
@@ -197,6 +198,23 @@ func (x *Exec) evalArgs(fn *types.Func, call *ast.CallExpr, st *State) []*Value 
 func (x *Exec) callFunc(fn *types.Func, recv *Value, call *ast.CallExpr, st *State) []*Value {
 	fn = fn.Origin()
 	key := funcKey(fn)
+	// interface methods declared in an embedded interface (e.g. encoding.BinaryUnmarshaler in
+	// kyber.Point): prefer a contract keyed by the static receiver type
+	if sr := x.staticRecv; sr != nil && recv != nil {
+		x.staticRecv = nil
+		if et, isPtr := derefType(sr); isPtr {
+			sr = et
+		}
+		if n, ok := types.Unalias(sr).(*types.Named); ok {
+			alt := qualName(n) + "." + fn.Name()
+			if alt != key {
+				if _, has := x.eng.db.C[alt]; has {
+					key = alt
+				}
+			}
+		}
+	}
+	x.staticRecv = nil
 	// contracts specialised on the static (named, non-interface) type of an argument that is
 	// passed to an interface parameter: key "pkg.Func@argpkg.ArgType"
 	if sig := fn.Type().(*types.Signature); recv == nil && len(call.Args) == sig.Params().Len() && !sig.Variadic() {
